@@ -695,6 +695,7 @@ LAYOUTS = {
     'L2x4g2b'  : dict(nodes=2, cores=4, gpus=2, blocked_cores=[0],
                       blocked_gpus=[1]),
     'L3x2g1a'  : dict(nodes=2, cores=2, gpus=1, agent_nodes=1),
+    'L1x4lm'   : dict(nodes=1, cores=4, gpus=0, lfs=3, mem=3),
     'L1x2'     : dict(nodes=1, cores=2, gpus=0),
     'L1x4'     : dict(nodes=1, cores=4, gpus=0),
     'L2x2g1'   : dict(nodes=2, cores=2, gpus=1),
@@ -720,6 +721,8 @@ SHAPES = {
     'l2'    : T(ranks=1, cores_per_rank=1, lfs_per_rank=2),
     'l1'    : T(ranks=1, cores_per_rank=1, lfs_per_rank=1),
     'r2l1'  : T(ranks=2, cores_per_rank=1, lfs_per_rank=1),
+    'r3l1'  : T(ranks=3, cores_per_rank=1, lfs_per_rank=1),
+    'r2m1'  : T(ranks=2, cores_per_rank=1, mem_per_rank=1),
     'm2'    : T(ranks=1, cores_per_rank=1, mem_per_rank=2),
     'm1'    : T(ranks=1, cores_per_rank=1, mem_per_rank=1),
     'l3'    : T(ranks=1, cores_per_rank=1, lfs_per_rank=3),
@@ -839,6 +842,11 @@ def scenarios(ctx_pid, quick):
     lm = ['l2', 'l1', 'r2l1', 'm2', 'm1', 'l3']
     for combo in itertools.product(lm, repeat=2 if quick else 3):
         add('lfsmem', 'L2x2g1lm', list(combo))
+
+    # more cores than storage: lfs/mem decide how many ranks fit a node
+    lm2 = ['l2', 'l1', 'r2l1', 'r2m1', 'm2', 'r3l1']
+    for combo in itertools.product(lm2, repeat=2):
+        add('lfsmem', 'L1x4lm', list(combo))
 
     # ranks per node, tags -------------------------------------------------------
     for combo in itertools.product(['r2n1', 'r3n1', 'r3n2', 'c1'], repeat=2):
